@@ -211,7 +211,3 @@ def run(ctx):
 def search(ctx):
     return run(ctx)
 
-
-def replay(ctx, path):
-    print(open(path).read()[:3000])
-    return 0
